@@ -30,6 +30,7 @@ const (
 	ErrMismatchParamLengthError = 51
 	ErrMostParamsError          = 52
 	ErrExactParamsError         = 53
+	ErrCallDepthExceeded        = 54
 	// module error
 	ErrModuleNotFound           = 60
 	ErrImportSameModule         = 61
@@ -234,6 +235,15 @@ func ModuleCircularDependency() *RuntimeError {
 	return &RuntimeError{
 		Code:    ErrModuleCircularDependency,
 		Message: "导入模块时出现循环依赖，无法进行下一步操作",
+		Extra:   nil,
+	}
+}
+
+// CallDepthExceeded - too many nested calls (e.g. a recursion that never ends)
+func CallDepthExceeded(maxDepth int) *RuntimeError {
+	return &RuntimeError{
+		Code:    ErrCallDepthExceeded,
+		Message: fmt.Sprintf("方法调用的嵌套层数超过了上限（%d 层）", maxDepth),
 		Extra:   nil,
 	}
 }
